@@ -62,17 +62,17 @@ def cases_for(rng, tier):
     q = tier == "quick"
     cases = []
     sbv = lambda: rng.choice([0, 2, 3])
-    for i in range(450 if q else 6000):
+    for i in range(900 if q else 20000):
         cases.append({"sb": sbv(), "ops": single_dataset(rng, i), "gen": "single"})
-    for i in range(300 if q else 4000):
+    for i in range(600 if q else 12000):
         cases.append({"sb": sbv(), "ops": histgen.gen_mixed(rng, nops=rng.choice([12, 30, 60]), fail_rate=0.08), "gen": "mixed"})
-    for i in range(120 if q else 2000):
+    for i in range(240 if q else 6000):
         cases.append({"sb": sbv(), "ops": histgen.gen_mixed(rng, nops=rng.choice([30, 60]), sessions=rng.choice([2, 3]), fail_rate=0.05), "gen": "sessions"})
-    for i in range(200 if q else 3000):
+    for i in range(400 if q else 9000):
         cases.append({"sb": sbv(), "ops": c02.one_history(rng, rng.choice([3, 8, 15, 30, 60, 120])), "gen": "attrs"})
-    for i in range(130 if q else 2000):
+    for i in range(260 if q else 6000):
         cases.append({"sb": sbv(), "ops": c03.one_history(rng), "gen": "tree"})
-    for i in range(180 if q else 3000):
+    for i in range(360 if q else 9000):
         cases.append({"sb": sbv(), "ops": c13.one_history(rng), "gen": "resize"})
     # fixed corner cases: empty file, never-written datasets, full symbol table node
     for sb in (0, 2, 3):
@@ -366,32 +366,49 @@ def py_extents_ok(fs, eof, l):
 
 # ----------------------------------------------------------------------------- driver
 
-def run(ctx):
-    H, rng = ctx.harness, ctx.rng
-    os.makedirs(BUILD_DIR, exist_ok=True)
-    cases = cases_for(rng, ctx.tier)
-    hc = [dict(sb=c["sb"], ops=c["ops"], dir=BUILD_DIR, keep=True, nodata=True) for c in cases]
-    try:
-        results = vlib.run_harness_parallel(H, "hist", hc)
-    except RuntimeError as e:
-        # the harness process died (a fatal Go runtime error cannot be recovered): find the history that kills it
-        results, crash = [], None
-        for c1, h1 in zip(cases, hc):
+class Crash(Exception):
+    pass
+
+
+def wipe():
+    for d in os.listdir(BUILD_DIR):
+        shutil.rmtree(os.path.join(BUILD_DIR, d), ignore_errors=True)
+
+
+def harness_case(c):
+    if "datasets" in c:
+        return dict(sb=c["sb"], datasets=c["datasets"], dir=BUILD_DIR)
+    return dict(sb=c["sb"], ops=c["ops"], dir=BUILD_DIR, keep=True, nodata=True)
+
+
+def produce(H, allcases, size=1500):
+    """run the histories batch by batch (bounded disk use); yields (case, harness result); the files of a batch are
+    removed when the consumer asks for the next batch"""
+    for k in range(0, len(allcases), size):
+        part = allcases[k:k + size]
+        for sub, sel in (("hist", [c for c in part if "ops" in c]), ("c05vlen", [c for c in part if "datasets" in c])):
+            if not sel:
+                continue
             try:
-                results.append(vlib.run_harness(H, "hist", [h1], timeout=120)[0])
-            except Exception as e1:
-                crash = crash or (c1, str(e1))
-                results.append({"crashed": True})
-        if crash is None:
-            raise
-        c1, msg = crash
-        first = next((l for l in msg.splitlines() if "fatal error" in l or "panic" in l), msg[:200])
-        shutil.rmtree(BUILD_DIR, ignore_errors=True)
-        return dict(violations=[dict(what="the library kills the process while replaying a history (%s)" % first.strip()[:200],
-                                     failing_input=dict(sb=c1["sb"], ops=c1["ops"]), stderr=msg[-1500:])], known=[],
-                    coverage=dict(evaluations=len(cases), distinct_nontrivial=0, rule="aborted: process crash", samples=[]))
-    vcases = vlen_cases(rng, 100 if ctx.tier == "quick" else 1500)
-    vres = vlib.run_harness_parallel(H, "c05vlen", [dict(sb=c["sb"], datasets=c["datasets"], dir=BUILD_DIR) for c in vcases])
+                res = vlib.run_harness_parallel(H, sub, [harness_case(c) for c in sel])
+            except RuntimeError:
+                # the harness process died (a fatal Go runtime error cannot be recovered): find the history that kills it
+                for c1 in sel:
+                    try:
+                        vlib.run_harness(H, sub, [harness_case(c1)], timeout=120)
+                    except Exception as e1:
+                        raise Crash(c1, str(e1))
+                raise
+            yield from zip(sel, res)
+        wipe()
+
+
+def run(ctx):
+    global BUILD_DIR
+    H, rng = ctx.harness, ctx.rng
+    BUILD_DIR = vlib.scratch()          # private to this run; removed by vlib.cleanup()
+    cases = cases_for(rng, ctx.tier)
+    vcases = vlen_cases(rng, 200 if ctx.tier == "quick" else 4000)
     listed = known_tags()
     viol, tagcount, tagwit = [], collections.Counter(), {}
     kinds, sbs, gens = collections.Counter(), collections.Counter(), collections.Counter()
@@ -400,7 +417,7 @@ def run(ctx):
     samples, vectors = [], []
     nfiles = nextents = 0
     try:
-        for c, r in list(zip(cases, results)) + list(zip(vcases, vres)):
+        for c, r in produce(H, cases + vcases):
             j = judge_vlen(c, r) if "datasets" in c else judge_file(c, r)
             if j.get("harness"):
                 viol.append(dict(what="hist harness failed on a case: " + j["problems"][0], case=c, nofail=True, correspondence="harness/hist"))
@@ -419,12 +436,14 @@ def run(ctx):
                 nextents += len(res["extents"])
                 for e in res["extents"]:
                     kinds[e[2]] += 1
-                if len(samples) < (150 if ctx.tier == "quick" else 3000) and len(res["extents"]) <= 400:
+                if len(samples) < (300 if ctx.tier == "quick" else 3000) and len(res["extents"]) <= 400:
                     samples.append((res["size"], res["sb"].get("eof", 0), [(e[0], e[1]) for e in res["extents"]]))
-                if len(vectors) < 60:
+                if len(vectors) < 80:
                     for kind, addr, algo, s, e, stored in res["checks"]:
-                        if e - s <= 600 and len(vectors) < 60:
-                            vectors.append((algo, res["data"][s:e], stored))
+                        body = s if isinstance(s, bytes) else res["data"][s:e]
+                        nk = sum(1 for v in vectors if v[0] == algo)
+                        if len(body) <= 600 and nk < 40:
+                            vectors.append((algo, body, stored))
             for t, (wh, de) in j["tags"].items():
                 tagcount[t] += 1
                 tagwit.setdefault(t, dict(sb=c["sb"], where=wh, detail=de))
@@ -434,9 +453,14 @@ def run(ctx):
                 nbad += 1
                 if first_bad is None:
                     first_bad = (c, j)
+    except Crash as e:
+        c1, msg = e.args
+        first = next((l for l in msg.splitlines() if "fatal error" in l or "panic" in l), msg[:200])
+        return dict(violations=[dict(what="the library kills the process while replaying a history (%s)" % first.strip()[:200],
+                                     failing_input={k: c1[k] for k in ("sb", "ops", "datasets") if k in c1}, stderr=msg[-1500:])], known=[],
+                    coverage=dict(evaluations=nfiles, distinct_nontrivial=0, rule="aborted: process crash", samples=[]))
     finally:
-        shutil.rmtree(BUILD_DIR, ignore_errors=True)
-        os.makedirs(BUILD_DIR, exist_ok=True)
+        wipe()
     if first_bad is not None:
         c, j = first_bad
         key = j["problems"][0].split(":")[0]
@@ -496,6 +520,8 @@ def histcheck_short(o):
 
 
 def replay(ctx, path):
+    global BUILD_DIR
+    BUILD_DIR = vlib.scratch()
     rp = json.load(open(path))
     case = rp["detail"].get("failing_input") or rp["detail"].get("case")
     os.makedirs(BUILD_DIR, exist_ok=True)
